@@ -19,12 +19,12 @@ def documentedStatus (n : Nat) : Bool := n = 0 || n = 1 || n = 64 || n = 66 || n
     returns only `EXIT_SUCCESS` (it exits with EX_IOERR itself on failure) -/
 def statusExprOk (e : String) : Bool := e = "error"
 
-def siteOk (s : String × Nat × String × String × Option Nat) : Bool :=
+def exitSiteOk (s : String × Nat × String × String × Option Nat) : Bool :=
   match s.2.2.2.2 with
   | some v => documentedStatus v
   | none => statusExprOk s.2.2.2.1
 
-theorem C06_status_set : Gen.exitSites.all siteOk = true := by decide
+theorem C06_status_set : Gen.exitSites.all exitSiteOk = true := by decide
 
 /-- the first do/while of `uncrustify_file()`: `changed k` tells whether iteration `k` changed anything -/
 def nlLoopIters (changed : Nat → Bool) : Nat → Nat → Nat → Nat
